@@ -491,6 +491,7 @@ package core
 //@   requires core != nil && DirWF(d) && !isnil(d.includeTracer)
 //@   ensures [C11] d.type_ == 22 && !(has(d.namedParameters, "Name") && d.namedParameters["Name"] != "") ==> ret != nil && ret.index == d.keywordCoords.begin
 //@   ensures [C07] d.type_ == 22 && has(d.namedParameters, "Name") && d.namedParameters["Name"] == macroName ==> ret != nil && ret.index == d.keywordCoords.begin
+//@   ensures [C07,C11] d.type_ == 22 && has(d.namedParameters, "Name") && d.namedParameters["Name"] != "" && d.namedParameters["Name"] != macroName && !old(has(core.macro, d.namedParameters["Name"])) ==> ret != nil && ret.index == d.keywordCoords.begin
 //@   unclaimed #requires@findPaste children of a macro body are not known to be well-formed here
 //@   unclaimed #nil-deref children of a macro body are not known to be non-nil here
 //@   loop 1 invariant 0 - 1 <= rangeindex && rangeindex <= rangelen - 1 && d.type_ != 22
